@@ -89,6 +89,23 @@ class Parity:
             return self.key_of(c.child('lhs'))
         return None
 
+    def _set(self, st, key, p):
+        """record the parity of key, and of everything known to be equal to it"""
+        st[key] = p
+        for k_, v_ in list(st.items()):
+            if isinstance(k_, str) and k_.startswith('~'):
+                if v_ == key and st.get(k_[1:]) != p:
+                    st[k_[1:]] = p
+                elif k_[1:] == key and st.get(v_) != p:
+                    st[v_] = p
+
+    def _kill(self, st, key):
+        st.pop(key, None)
+        st.pop('~' + key, None)
+        for k_, v_ in list(st.items()):
+            if isinstance(k_, str) and k_.startswith('~') and v_ == key:
+                st.pop(k_, None)
+
     def refine(self, cond, st, truth):
         """state on the edge where cond evaluates to `truth`"""
         c = _strip_casts(cond)
@@ -96,6 +113,17 @@ class Parity:
             c = _strip_casts(c.c[0])
         st = dict(st)
         if c is None:
+            return st
+        if c.k == 'DeclRefExpr' and c.dk == 'local' and (c.t or '').replace('const ', '').strip() == 'bool':
+            # a named condition (`const bool odd = n % 2 != 0;`, never reassigned): what it was defined as holds / fails
+            d = next((v for v in self.fn.body.walk() if v.k == 'VarDecl' and v.d == c.d and v.child('init') is not None), None)
+            if d is not None and d.pos < c.pos and not any(((is_assign(x) or x.k == 'CompoundAssignOperator') and lvalue_key(_strip_casts(x.child('lhs'))) == lvalue_key(c)) for x in self.fn.body.walk()):
+                deps = {lvalue_key(y) for y in d.child('init').walk() if y.k == 'DeclRefExpr' and y.dk in ('local', 'param') and lvalue_key(y)}
+                written_between = any(((is_assign(x) or x.k == 'CompoundAssignOperator') and lvalue_key(_strip_casts(x.child('lhs'))) in deps) or
+                                      (x.k == 'UnaryOperator' and x.op in ('++', '--', 'post++', 'post--') and lvalue_key(_strip_casts(x.child('sub'))) in deps)
+                                      for x in self.fn.body.walk() if d.pos < x.pos < c.pos)
+                if not written_between:
+                    return self.refine(d.child('init'), st, truth)
             return st
         if c.k == 'UnaryOperator' and c.op == '!':
             return self.refine(c.child('sub'), st, not truth)
@@ -105,14 +133,14 @@ class Parity:
             return self.refine(c.child('rhs'), self.refine(c.child('lhs'), st, False), False)
         key = self._odd_test_of(c)
         if key is not None:
-            st[key] = 'O' if truth else 'E'
+            self._set(st, key, 'O' if truth else 'E')
             return st
         if c.k == 'BinaryOperator' and c.op in ('==', '!='):
             k2 = self._odd_test_of(c.child('lhs'))
             v = _strip_casts(c.child('rhs')).cv
             if k2 is not None and v in (0, 1):
                 odd = (v == 1) == (c.op == '==')
-                st[k2] = ('O' if odd else 'E') if truth else ('E' if odd else 'O')
+                self._set(st, k2, ('O' if odd else 'E') if truth else ('E' if odd else 'O'))
         return st
 
     # ---- statements
@@ -123,8 +151,10 @@ class Parity:
         for x in e.walk():
             if x.k == 'UnaryOperator' and x.op in ('++', 'post++', '--', 'post--'):
                 k = lvalue_key(_strip_casts(x.child('sub')))
-                if k in st:
-                    st[k] = FLIP[st[k]]
+                p0 = st.get(k)
+                self._kill(st, k)
+                if p0 in FLIP:
+                    st[k] = FLIP[p0]
             elif is_assign(x) or x.k == 'CompoundAssignOperator':
                 l = _strip_casts(x.child('lhs'))
                 k = lvalue_key(l) if l is not None and l.k == 'DeclRefExpr' else None
@@ -151,10 +181,11 @@ class Parity:
                     p = 'E' if m is not None and m % 2 == 0 else None
                 else:
                     p = None
+                self._kill(st, k)
                 if p:
                     st[k] = p
-                else:
-                    st.pop(k, None)
+                elif op == '=' and self.key_of(r) is not None and self.key_of(r) != k:
+                    st['~' + k] = self.key_of(r)        # equal to another variable whose parity may be learnt later
             elif x.k in ('CallExpr', 'CXXMemberCallExpr'):
                 # a local handed over by address or non-const reference may be written
                 for a in x.args:
@@ -197,10 +228,11 @@ class Parity:
                     key = 'v%d:%s' % (v.d, v.n)
                     st = self.effects(v.child('init'), st)
                     p = self.par(v.child('init'), st) if v.child('init') is not None else None
+                    self._kill(st, key)
                     if p:
                         st[key] = p
-                    else:
-                        st.pop(key, None)
+                    elif v.child('init') is not None and self.key_of(v.child('init')) is not None:
+                        st['~' + key] = self.key_of(v.child('init'))
             return st
         if k == 'IfStmt':
             st = self.effects(s.child('cond'), st)
@@ -215,13 +247,13 @@ class Parity:
             if s.child('init') is not None:
                 st = self.stmt(s.child('init'), st)
             w = self.written(s)
-            st = {kk: v for kk, v in st.items() if kk not in w}
+            st = {kk: v for kk, v in st.items() if kk not in w and not (isinstance(kk, str) and kk.startswith('~') and (kk[1:] in w or v in w))}
             body_in = self.refine(s.child('cond'), st, True) if s.child('cond') is not None and k != 'DoStmt' else dict(st)
             self.stmt(s.child('body'), body_in)
             return self.refine(s.child('cond'), st, False) if s.child('cond') is not None else dict(st)
         if k == 'SwitchStmt':
             w = self.written(s)
-            base = {kk: v for kk, v in st.items() if kk not in w}
+            base = {kk: v for kk, v in st.items() if kk not in w and not (isinstance(kk, str) and kk.startswith('~') and (kk[1:] in w or v in w))}
             for c in s.walk():
                 if c is not s and c.k in ('CaseStmt', 'DefaultStmt'):
                     pass
